@@ -94,6 +94,19 @@ PROPS = {
     ),
 }
 
+PROPS["C15"] = dict(
+    engines=["codec"],
+    rule="codec engine: every exported Unmarshal/Marshal Binary and Bencode method of the five compact types, NodeAddr, NodeInfo, ID and "
+         "Error on all lengths 0..80 x 4 content patterns plus non-string bencode forms; bencode.Unmarshal/Marshal of krpc.Msg on the 13 "
+         "fuzz seeds, the msg_test.go vectors, ~330 directed quirk cases and ~500 wrong-type cases per field; 547 generated messages over "
+         "the full field set (one field at a time through all its choices, then random points of the product), each encoded, decoded, "
+         "re-encoded and re-encoded again; a malformed stream of truncations at every offset, 1500 mutations, nesting to depth 5000, "
+         "huge declared lengths and trailing bytes; the nodes file. A case is distinct by its input text.",
+    trusted=["anacrolix/torrent/bencode internals (modelled byte-level incl. its quirks, differentially tested on every run)",
+             "net.IP.To4/To16; 64-bit int", "tools/srcschema (struct tags of krpc/msg.go -> gen/KrpcSchema.v, pinned field by field)"],
+    assumptions=["inputs of at most 2^27-1 bytes for the fixpoint clause only (the decoder's own string limit; every UDP datagram is far below)"],
+)
+
 TRAV_RULE = ("traversal engine: real traversal.Start with a scripted blocking DoQuery; the explorer releases completions, AddNodes and "
              "Stop at quiescent points (hook VerifSnapshot: outstanding == entered-released and cond channel armed / loop exited). "
              "Generators: honest / silent / lying / duplicate-ID / one address under 1..16 IDs repeated across replies and seeds incl. "
